@@ -7,8 +7,8 @@
 From V.lib Require Import Base.
 From V.c13 Require Import C13Spec C13Model C13ReaderProofs.
 From V.c15 Require Import C15Model C15Spec C15BitProofs C15AvcSpsProofs C15AvcVuiProofs C15AvcPpsProofs C15AvcSliceProofs C15AvcDimsProofs
-  C15HevcModel C15HevcSpec C15HevcPpsProofs
-  C15TieBaseProofs C15TieRelProofs C15TieAvcProofs C15TieHevcProofs.
+  C15HevcModel C15HevcSpec C15HevcPpsProofs C15HevcSpsProofs C15HevcSliceProofs
+  C15TieBaseProofs C15TieRelProofs C15TieAvcProofs C15TieHevcProofs C15TieHevcSpsProofs.
 
 Lemma bytes_of_bits_ok_aux n : forall l, (length l <= n)%nat -> bytes_ok (bytes_of_bits l) = true.
 Proof.
@@ -77,4 +77,42 @@ Lemma hevc_pps_er spsmap v :
 Proof.
   intros Hv Hm Hz. unfold hnalu_pps, hnalu_of. fold (hraw_pps v).
   rewrite (tie_hevc_pps (hraw_pps v) spsmap (hraw_nalu_ok _ _ _ _) Hz). apply (hevc_pps spsmap v Hv Hm).
+Qed.
+
+(* ---------------------------------------------------------------- HEVC SPS / slice segment header *)
+Ltac split_valid H := repeat (apply andb_true_iff in H; let H' := fresh "V" in destruct H as [H H']).
+
+Lemma hsps_valid_depths v : hsps_valid v = true -> hsps_depths_ok (expected_hsps v) = true.
+Proof.
+  intros Hv. unfold hsps_depths_ok, expected_hsps. cbn [h_bdl h_bdc h_log2_poc].
+  unfold hsps_valid in Hv. split_valid Hv. lia.
+Qed.
+
+Lemma hevc_sps_er v :
+  hsps_valid v = true -> zrun_ok (hraw_sps v) = true ->
+  hparse_sps_er (hnalu_sps v) = Ok (expected_hsps v).
+Proof.
+  intros Hv Hz. unfold hnalu_sps, hnalu_of. fold (hraw_sps v).
+  apply (tie_hevc_sps (hraw_sps v) (expected_hsps v) (hraw_nalu_ok _ _ _ _) Hz).
+  - apply (hevc_sps v Hv).
+  - apply hsps_valid_depths. exact Hv.
+Qed.
+
+Lemma hraw_slice_ok sp pp v : hslice_valid sp pp v = true -> bytes_ok (hraw_slice sp pp v) = true.
+Proof.
+  intros Hv. unfold hraw_slice. rewrite bytes_ok_app, bytes_of_bits_ok. cbn [andb].
+  unfold hslice_valid in Hv. split_valid Hv. assumption.
+Qed.
+
+Lemma hevc_slice_er spsmap ppsmap sp pp v :
+  hsps_valid sp = true -> hpps_valid pp = true -> hslice_valid sp pp v = true ->
+  ppsmap (sx_slice_pic_parameter_set_id v) = Some (expected_hpps pp) ->
+  spsmap (sx_pps_seq_parameter_set_id pp) = Some (expected_hsps sp) ->
+  zrun_ok (hraw_slice sp pp v) = true ->
+  (forall id s, spsmap id = Some s -> hsps_narrow s = true) ->
+  hparse_slice_er spsmap ppsmap (hnalu_slice sp pp v) = Ok (expected_hslice sp pp v).
+Proof.
+  intros Hs Hp Hv Mp Ms Hz Hn. unfold hnalu_slice.
+  rewrite (tie_hevc_slice (hraw_slice sp pp v) spsmap ppsmap (hraw_slice_ok sp pp v Hv) Hz Hn).
+  exact (hevc_slice spsmap ppsmap sp pp v Hs Hp Hv Mp Ms).
 Qed.
